@@ -33,6 +33,24 @@ HIST_ASSUME = ["all events of one vBucket are fed by one goroutine at a time (go
                "Layer-A fakes of couchbase.Client / metadata.Metadata / models.Consumer are the trusted base; the fake store writes per vBucket like the Couchbase backend"]
 
 CHECKS = {
+    "C10": dict(
+        level="exploration",
+        rule="(a) Couchbase heart-beat variant: histories of 2..7 joins / departures (a departure = Close(): graceful leave and silent death are "
+             "the same event for the others) over up to 6 real NewCBMembership instances on one simulated bucket (heartbeat 20 ms, monitor 30 "
+             "ms, tolerance 1.5 s), separated by quiescence; a child process per history. At each quiescent point every live member's last "
+             "announcement and GetInfo() must be (rank in join order)/(number of live members); announcements only on change; all writes under "
+             "the instance prefix. Slow convergence is re-run once and otherwise counted as discarded_timing. (b) leader-assigned variant: real "
+             "serviceDiscovery as leader, 0..7 fake follower clients (join times incl. ties, ping failing from round 1/2) forwarding to real "
+             "follower-side serviceDiscovery objects, 2 (quick) / 3 (thorough) hard-coded 5 s rounds, all cases concurrent: leader 1/(n+1), "
+             "followers 2.. in join order, distinct, failed followers dropped and no longer addressed, announce only on change. (c) static "
+             "membership relays the configured numbers; PUT /membership/info through the real HTTP API + real dynamic membership: last value "
+             "wins, repeated values are not announced. non-trivial = (a) >= 3 joins and a non-last member leaving, (b) >= 2 followers and a "
+             "ping failure, (c) a repeated PUT",
+        assumptions=["membership operations are separated by quiescence and join times are distinct (as the property states)",
+                     "the order in which members run their monitor rounds is whatever the timers give (sampled, not owned)",
+                     "kubernetesStatefulSet (reads os.Hostname) and the Kubernetes lease itself are not reachable offline; only the numbering logic downstream of them is exercised"],
+        units=[rapid("TestC10_Couchbase", 1, 1, 4, 8), rapid("TestC10_Leader", 1, 1, 2, 8), rapid("TestC10_Relay", 300, 20000, 1, 4)],
+    ),
     "C20": dict(
         level="fault_enumeration",
         rule="(a) AsyncOp with a fake PendingOp: completion clearly before / around / clearly after / never relative to deadlines of 1..60 ms, and "
